@@ -687,6 +687,7 @@ func main() {
 	in := flag.String("in", "", "jobs ndjson (default stdin)")
 	out := flag.String("out", "", "events ndjson (default stdout)")
 	dl := flag.Int("deadline", 30, "per-call deadline in seconds")
+	flush := flag.Bool("flush", false, "flush the output after every event (used to locate the call during which the process died)")
 	flag.Parse()
 	deadline = time.Duration(*dl) * time.Second
 	var r *os.File = os.Stdin
@@ -741,5 +742,8 @@ func main() {
 		b, _ := json.Marshal(ev)
 		bw.Write(b)
 		bw.WriteByte('\n')
+		if *flush {
+			bw.Flush()
+		}
 	}
 }
